@@ -90,6 +90,18 @@ func (p *c02) Init(tier string, seed int64) {
 			p.hand = append(p.hand, fmt.Sprintf("{{ %s.%s }}{{ %s.%s() }}{{ %s.%s(1) }}{{ %s }}{{ %s ~ 'x' }}{{ %s + 1 }}{%% if %s %%}t{%% endif %%}{{ %s == %s }}{{ %s in [%s] }}", v, m, v, m, v, m, v, v, v, v, v, v, v, v))
 		}
 	}
+	// every pattern-like string as a pattern, as a subject and on both sides of the string operators
+	pats := []string{"/", "/admin", "//", "/a/", "/a/i", "/a", "a/", "[", "(", "(?", "(?i)a", "\\", "*", "+", "?", "{", "a{2", "a{2,1}", "^", "$", ".", "|", "(a|", "[a-", "\\p{", "(?P<n>", "x{1000}", "(((((a)))))", "\\1", ""}
+	for _, pt := range pats {
+		q := "'" + pt + "'"
+		for _, form := range []string{"{{ 'abc/admin' matches %s }}", "{{ %s matches 'a' }}", "{{ s matches %s }}", "{{ %s starts with %s }}", "{{ %s ends with s }}", "{{ %s in [%s] }}", "{%% if '/x' matches %s %%}y{%% endif %%}", "{{ {(%s): 1}|keys|join }}", "{{ s|replace({(%s): %s}) }}", "{{ s|split(%s)|join(%s) }}", "{{ s|trim(%s) }}"} {
+			args := make([]interface{}, strings.Count(form, "%s"))
+			for k := range args {
+				args[k] = q
+			}
+			p.hand = append(p.hand, fmt.Sprintf(form, args...))
+		}
+	}
 	for _, m := range []string{"ValueMethod", "PtrMethod", "Add", "Concat", "Variadic", "Join", "Fmt", "Two", "Nothing", "TakesPtr", "TakesIface", "TakesFloat", "TakesSlice", "TakesUint", "TakesInt8", "TakesUint8", "NilFunc", "Fn", "Name"} {
 		for _, v := range append(c02Vars(), "null", "nan", "inf", "big") {
 			p.hand = append(p.hand, fmt.Sprintf("{{ obj.%s(%s) }}{{ pt.%s(%s, %s) }}{{ obj.%s('x', 1, %s) }}", m, v, m, v, v, m, v))
